@@ -529,6 +529,14 @@ static void build_graph(trial_t *t)
 			/* retarget an idle, never-used queue */
 			if (tq) dispatch_set_target_queue(q->q, tq);
 		}
+		/* a width-limited concurrent queue (dispatch_queue_set_width, deprecated SPI but the only way to get one): asynchronous
+		 * readers can then run out of width, the drainer gives up with "no width", sync readers go over the limit by design;
+		 * barriers exclude all the same */
+		if (q->kind == VF_Q_CONCURRENT && (long)vf_rnd_n(r, 100) < vf_opt_long("narrow", 15)) {
+			static const long ws[] = { 2, 2, 3, 4, 6 };
+			dispatch_queue_set_width(q->q, ws[vf_rnd_n(r, 5)]);
+			vf_count("width_limited_concurrent_queues", 1);
+		}
 	}
 }
 
